@@ -28,8 +28,11 @@ def seq_spec(prop, sweep, quick, thorough, rule, after_op=None, tier_kw=None, pr
             from .pagination import gen_deep_chain
 
             return gen_deep_chain(rng, "C10", seed, "links")
-        g = Gen(rng, prop, tier)
+        mem = rng.random() < 0.1  # the memory back-end is part of the code these properties are anchored in
+        g = Gen(rng, prop, tier, backend="mem" if mem else None, allow_restart=not mem)
         c = g.case(seed)
+        if mem:
+            c["ops"] = [o for o in c["ops"] if o["op"] != "reopen"]
         if prop in RECOVERED and rng.random() < 0.15:
             from .recovered import add_recovered
 
